@@ -11,6 +11,11 @@
 
 // A uniform interface over all the classes
 struct HObj {
+    // zero-filled storage: the padding bytes of the wrapped C struct are never written by the library, and what the
+    // allocator hands out must not look like residue (this was a false alarm of checks/c13.py: byte 42 of a
+    // freed ascon::hash held allocator garbage from an earlier case)
+    static void *operator new(size_t n) { void *p = calloc(1, n); if (!p) abort(); return p; }
+    static void operator delete(void *p) { free(p); }
     virtual ~HObj() {}
     virtual HObj *clone() const = 0;                 // copy constructor
     virtual void assign(const HObj *o) = 0;          // operator=
@@ -128,7 +133,7 @@ static void h_del(const Args &a) {
     h->~HObj();
     Ev ev("cxh.del"); ev.s("cls", hcls(id)).n("obj", id);
     if (a.num("dump_raw")) ev.n("wipe", a.num("wipe")).b("raw", (const uint8_t *)st, sizeof(ascon_xof_state_t));
-    ev.emit(); ::operator delete((void *)h); obj_del(id);
+    ev.emit(); free((void *)h); obj_del(id);
 }
 static void h_digest(const Args &a) {
     std::string cls = a.str("cls"); bytes_t d = a.hex("in"); InBuf b(d, a.num("null_if_empty") != 0); OutBuf o(32);
